@@ -58,6 +58,48 @@
                       ((vg_old_k == (spif_obj_t) NULL) ? SPIF_CMP_LESS : \
                        ((vg_old_k2 == (spif_obj_t) NULL) ? SPIF_CMP_GREATER : vg_cr)))
 
+/* ---- vector / map facts in the key model (env_array.h, VA_COMP_KEY) -----------------------
+ * ghost pointers: vg_e1 = probe / new element (key vg_key1), vg_e2 = items[vg_k] (vg_key2),
+ * vg_e3 = items[vg_j] (vg_key3), vg_e4 = items[vg_j + 1] (vg_key4).  vg_j is the INSTANTIATION
+ * POINT of the sortedness fact: a search ends at a computed position; the unit records it in
+ * vg_exit and guards the clauses that need sortedness there with "vg_exit matches vg_j".  vg_j is
+ * arbitrary, so every possible end position is covered (GUIDE: manual quantifier instantiation).
+ * vg_j == SIZE_MAX stands for "before the first slot". */
+#define VEC_GHOSTS(a, probe) \
+    (vg_e1 == (probe) && VA_KEYS_CONSISTENT && \
+     (vg_k >= (size_t) (a)->len || ((a)->items[vg_k] == vg_e2 && vg_e2 != (spif_obj_t) NULL)) && \
+     (vg_j >= (size_t) (a)->len || ((a)->items[vg_j] == vg_e3 && vg_e3 != (spif_obj_t) NULL)) && \
+     (vg_j + 1 >= (size_t) (a)->len || ((a)->items[vg_j + 1] == vg_e4 && vg_e4 != (spif_obj_t) NULL)))
+/* ascending order, instantiated at (vg_k, vg_j), (vg_j + 1, vg_k) and (vg_j, vg_j + 1); STRICT = 1 for maps */
+#define VEC_SORTED_AT_J(a, STRICT) \
+    ((!(vg_k < (size_t) (a)->len && vg_j < (size_t) (a)->len && vg_k <= vg_j) || \
+      ((STRICT) && vg_k != vg_j ? vg_key2 < vg_key3 : vg_key2 <= vg_key3)) && \
+     (!(vg_k < (size_t) (a)->len && vg_j + 1 < (size_t) (a)->len && vg_k >= vg_j + 1) || \
+      ((STRICT) && vg_k != vg_j + 1 ? vg_key4 < vg_key2 : vg_key4 <= vg_key2)) && \
+     (!(vg_j < (size_t) (a)->len && vg_j + 1 < (size_t) (a)->len) || ((STRICT) ? vg_key3 < vg_key4 : vg_key3 <= vg_key4)))
+
+/* map: the ghost slot holds a REAL pair (is_fresh assigns the slot) that owns a real key and value
+ * velem; vg_e2 / vg_key2 are tied to it (the integer key of a pair is the key of its key object:
+ * that is what spif_objpair_comp compares, C03.objpair_comp).  Used together with VEC_GHOSTS. */
+#define MAP_PAIR_K(a) \
+    (vg_k >= (size_t) (a)->len ? !vg_e2_real : \
+     (vg_e2_real && __CPROVER_is_fresh((a)->items[vg_k], sizeof(struct spif_objpair_t_struct)) && \
+      VELEM_VALID((velem_t) ((spif_objpair_t) (a)->items[vg_k])->key) && \
+      VELEM_VALID((velem_t) ((spif_objpair_t) (a)->items[vg_k])->value) && \
+      vg_key2 == ((velem_t) ((spif_objpair_t) (a)->items[vg_k])->key)->key))
+#define PAIR_K(a) ((spif_objpair_t) (a)->items[vg_k])
+#ifndef VKEYOF
+# define VKEYOF(p) (((velem_t) (p))->key)
+#endif
+/* the fresh pair the dup of the ghost pair returns (precondition) and "it is an equal copy" */
+#define VM_DUP_PAIR_FRESH (__CPROVER_is_fresh(vg_dup_pair, sizeof(struct spif_objpair_t_struct)) && \
+                           VELEM_VALID((velem_t) vg_dup_pair->key) && VELEM_VALID((velem_t) vg_dup_pair->value))
+#define VM_DUP_PAIR_FRAME vg_dup_pair->parent, __CPROVER_object_whole(vg_dup_pair->key), __CPROVER_object_whole(vg_dup_pair->value)
+#define VM_DUP_PAIR_EQ_K(a) (VKEYOF(vg_dup_pair->key) == VKEYOF(PAIR_K(a)->key) && VKEYOF(vg_dup_pair->value) == VKEYOF(PAIR_K(a)->value) && \
+                             SPIF_OBJ_CLASS(vg_dup_pair) == SPIF_OBJ_CLASS(PAIR_K(a)))
+/* has_value: vg_e1 = probe value (vg_key1), vg_e3 = value object of the ghost pair (vg_key3) */
+#define VM_HASV_MATCH_K (value != (spif_obj_t) NULL && vg_key3 == vg_key1)
+
 /* frame of a mutator */
 #define ARRAY_FRAME(a) (a)->len, (a)->items; (a)->items != NULL: __CPROVER_object_whole((a)->items)
 
